@@ -27,12 +27,12 @@ PROPS = {
     'C01': {
         'id': 'C01', 'area': 'dp',
         'theorems': ['Props.C01_consts', 'Props.C01_storage_at_msg', 'Props.C01_serial_at_msg', 'Props.C01_at_garbage'],
-        'n_quick': 3000, 'n_thorough': 40000,
+        'n_quick': 3000, 'n_thorough': 30000,
     },
     'C02': {
         'id': 'C02', 'area': 'dp',
         'theorems': ['Props.C02_written_parses'],
-        'n_quick': 3000, 'n_thorough': 40000,
+        'n_quick': 3000, 'n_thorough': 30000,
     },
     'C05': {
         'id': 'C05', 'area': 'lc',
